@@ -47,6 +47,10 @@ pub fn run(env: &Env, run: &Run) -> (Stats, Coverage) {
     // ASCII strings (two fillers), alphabet symbols alone and in pairs inside 16..41-byte ASCII strings,
     // all of them at every address residue modulo 8 / 16 (sub-slices of a larger buffer)
     st.merge(run_structural(&sigma, run.tier, |s, st| visit(env, s, st)));
+    {
+        let stairs = block_staircases(env, crate::subject::Class::Identifier);
+        st.merge(run_family(&stairs, |s, st| visit(env, s, st)));
+    }
     if run.tier == Tier::Thorough && !lite() {
         // a label of more than 4 GiB with the mapped characters behind offset 2^32
         check_rule_giga(Prof::Ucp, RuleFn::Width, "\u{ff21}\u{65e5}\u{ff76}\u{3000}z", |x| ref_width(&env.ud16, x), &mut st);
